@@ -48,6 +48,10 @@ PROPS = {
     "C15": dict(level="exploration", stages=[dict(kind="sim", quick=25, thorough=600)], rule=live_rule + "; 1-3 updaters per secret (some created while a round is parked), builders that reject chosen versions, values that count Close",
                 probes_required=["updater-rebuilt", "updater-build-failed", "updater-concurrent-get"],
                 assumptions=["Gets that overlap on one updater are judged only by the weak invariants (value identity, closers)"]),
+    "C17": dict(level="exploration", stages=[dict(kind="sim", quick=25, thorough=600)],
+                rule="one evaluation = one timeline of 10-240 min of virtual time: the real backup loop against a real database and the real S3 client over an in-memory bucket, bursts of writes and idle stretches chosen by the tape, a per-upload script of 5xx / transport errors / stalls, writes racing the loop at database-lock and upload park points, cancellation at the end; distinct = distinct canonical event-log hash; non-trivial = at least one upload",
+                probes_required=["upload-judged", "terminated", "converged", "s3-5xx", "s3-stall"],
+                assumptions=["the bucket honours the request context", "time only passes while no task is runnable"]),
     "C19": dict(level="exploration", stages=[dict(kind="sim", quick=25, thorough=600)], rule=live_rule + "; expiry ages {0,1s,1min,1h}, caches with arbitrary last-access stamps (0, past, future), restarts from the cache, forward jumps of the store's clock",
                 probes_required=["expired-drop", "restart", "clock-jump"],
                 assumptions=["staleness is compared in whole seconds with one second of slack at the boundary"]),
@@ -112,7 +116,7 @@ def run_property(ck, b, prop, cfg, tier, seed, replay, t0):
                         harness_trouble.append("race report whose accesses are not in the repository (harness race):\n" + report[:3000])
                         crashes.remove(c)
                         continue
-                    keep = os.path.join(ck.VERIF, "replays", prop)
+                    keep = os.path.join(os.environ.get("VERIF_REPLAYS_DIR") or os.path.join(ck.VERIF, "replays"), prop)
                     os.makedirs(keep, exist_ok=True)
                     dst = os.path.join(keep, "%s-%s-race-%d.json" % (prop, eng, sd))
                     json.dump(dict(property=prop, engine=eng, seed=sd, regenerate=True, race_report=report,
@@ -125,7 +129,7 @@ def run_property(ck, b, prop, cfg, tier, seed, replay, t0):
             for path in tot["violations"]:
                 rp = json.load(open(path))
                 conf = ck.replay_once(binary, prop, path, outdir, extra_env=st.get("env"))
-                keep = os.path.join(ck.VERIF, "replays", prop)
+                keep = os.path.join(os.environ.get("VERIF_REPLAYS_DIR") or os.path.join(ck.VERIF, "replays"), prop)
                 os.makedirs(keep, exist_ok=True)
                 dst = os.path.join(keep, os.path.basename(path))
                 rp["confirmed_in_fresh_process"] = bool(conf.get("reproduced"))
@@ -245,5 +249,6 @@ def write_evidence(ck, prop, cfg, tier, seed, totals, nviol, wall, listed):
     for t in totals:
         for k, v in (t.get("extra") or {}).items():
             ev["coverage"][k] = v
-    os.makedirs(os.path.join(ck.VERIF, "evidence"), exist_ok=True)
-    json.dump(ev, open(os.path.join(ck.VERIF, "evidence", prop + ".json"), "w"), indent=1)
+    evdir = os.environ.get("VERIF_EVIDENCE_DIR") or os.path.join(ck.VERIF, "evidence")
+    os.makedirs(evdir, exist_ok=True)
+    json.dump(ev, open(os.path.join(evdir, prop + ".json"), "w"), indent=1)
